@@ -39,6 +39,8 @@ type RenderCase struct {
 	// EarlierFile: the file the error value belonged to (and was rendered for, at the Earlier
 	// positions) before SetFile handed it Content
 	EarlierFile string `json:"earlier_file,omitempty"`
+	// Message: the text of the error ("msg" when empty); it is shown as it is, whatever it contains
+	Message string `json:"message,omitempty"`
 }
 
 type ParseCase struct {
@@ -76,15 +78,18 @@ func init() {
 // ---------------------------------------------------------------------------------------
 // (b) rendering
 
-func render(content []byte, pos int, earlierFile string, earlier ...int) (line uint, text, errText string, p any) {
+func render(content []byte, pos int, msg, earlierFile string, earlier ...int) (line uint, text, errText string, p any) {
 	defer func() {
 		if r := recover(); r != nil {
 			p = r
 		}
 	}()
-	e := liberrors.NewDocumentError(fs.NewFile("file", content), liberrors.Format(liberrors.ErrGeneric, "msg"))
+	if msg == "" {
+		msg = "msg"
+	}
+	e := liberrors.NewDocumentError(fs.NewFile("file", content), liberrors.Format(liberrors.ErrGeneric, msg))
 	if earlierFile != "" {
-		e = liberrors.NewDocumentError(fs.NewFile("earlier", []byte(earlierFile)), liberrors.Format(liberrors.ErrGeneric, "msg"))
+		e = liberrors.NewDocumentError(fs.NewFile("earlier", []byte(earlierFile)), liberrors.Format(liberrors.ErrGeneric, msg))
 	}
 	for _, q := range earlier {
 		func() {
@@ -107,7 +112,7 @@ func render(content []byte, pos int, earlierFile string, earlier ...int) (line u
 
 func checkRender(t run.TB, c RenderCase) (judged bool) {
 	b := []byte(c.Content)
-	line, text, errText, p := render(b, c.Pos, c.EarlierFile, c.Earlier...)
+	line, text, errText, p := render(b, c.Pos, c.Message, c.EarlierFile, c.Earlier...)
 	if p != nil {
 		run.Fail(t, chkRender, c, "rendering panicked: %v", p)
 	}
@@ -136,6 +141,9 @@ func checkRender(t run.TB, c RenderCase) (judged bool) {
 		} else if text != want {
 			run.Fail(t, chkRender, c, "SourceSubString()=%q, the left-trimmed line is %q", text, want)
 		}
+	}
+	if m := c.Message; m != "" && !strings.Contains(errText, m) {
+		run.Fail(t, chkRender, c, "Error() does not show the message %q as it is: %q", m, errText)
 	}
 	// caret line: last line of Error() is "\t--<dashes>^"
 	lines := strings.Split(errText, "\n")
@@ -241,6 +249,10 @@ func TestRenderRandom(t *testing.T) {
 		}
 		pos := rapid.IntRange(0, len(content)-1).Draw(t, "pos")
 		c := RenderCase{Content: content, Pos: pos}
+		if rapid.IntRange(0, 3).Draw(t, "oddMessage") == 0 {
+			// messages quote input: a key "100%", a byte '%', a URI with %zz ...
+			c.Message = rapid.SampledFrom([]string{"Invalid character \"%\"", "key \"100%\" not found", "%d %s %v", "50%% off", "http://a/%zz", "%!s(MISSING)", "%"}).Draw(t, "message")
+		}
 		j := checkRender(t, c)
 		run.Eval(chkRender, j && nlines >= 2, content, fmt.Sprint(pos))
 		run.Label("random-file:" + map[string]string{"\n": "LF", "\r\n": "CRLF", "\r": "CR"}[nl])
